@@ -15,14 +15,19 @@ TRUSTED = [
     "which processor the run sites hand to run_pipeline, absence of other custom copy hooks; for the copy sites and the "
     "two observation run sites whether anything derived from the caller's processor is written to (taint analysis over "
     "attribute/item stores, del, setattr, mutating method calls, run_pipeline on the caller's object) and whether every "
-    "value handed to .set is deep-copied by the site; fails closed)",
+    "value handed to .set is deep-copied by the site; which pipeline_seed reaches run_pipeline from every run site "
+    "(observation loop, the dask chain down to apply_ufunc's kwargs, fitness, _apply_parameters <- Calibration) and whether a "
+    "`with set_random_seed` surrounds the loop over the runs -> src_seeding; fails closed)",
     "correspondence harness: harness/props/c06.py generators, harness/drivers/c06.py (canonical numbering of real "
     "object graphs, value snapshots, standalone oracle built from the JSON spec without Processor.set)",
     "modelled, not verified: CPython copy.deepcopy of plain objects = relocation of the reachable sub-graph (checked "
     "on every generated graph: Coq compares the block it computes with the block CPython produced); user model "
     "functions change only what they reach from the processor they are given and do not depend on addresses "
-    "(Section hypotheses run_frame / run_local); module-level state (global RNG, lru_cache, probe TRACE) is outside "
-    "the store (C04/C20)",
+    "(Section hypotheses run_frame / run_local); numpy's global generator is modelled as a value threaded through the runs "
+    "(Model/HeapRng.v: `with set_random_seed` = start from seed_gen(seed), put the previous state back; that "
+    "exposure.run_pipeline brackets its whole body with the seed it is given is checked by the seeded behaviour cases, not "
+    "translated; threads sharing the generator: open finding of C07); other module-level state (lru_cache, probe TRACE) is "
+    "outside the store (C04/C20)",
 ]
 
 CLS = {"Processor": "CProcessor", "Group": "CGroup", "Model": "CModel", "Args": "CArgs", "Pipeline": "CPipeline",
@@ -805,6 +810,10 @@ def run(ctx: Ctx):
         "the buckets, the scene and the readout clock of a copy are not compared with the caller's (exposure.run_pipeline "
         "resets them before the first step of every run); caches (_numbytes), the running model's name and debug data "
         "(_intermediate) are not contents",
+        "seeded stochastic cases: every model that draws random numbers has no seed of its own and draws integers (probe "
+        "`draws`, Poisson shot noise) so that results are exact; the standalone exposure runs under the same pipeline_seed "
+        "and under a different state of the ambient generator; dask only with the synchronous scheduler, real calibrations "
+        "on one island (threads share numpy's generator: finding C07-seeded-threads-share-generator)",
         "calibration candidates are arbitrary binary64 values: fitness / champion frames are compared with the standalone "
         "oracle within 1e-9 relative (oracle side only); everything else uses dyadic inputs and exact comparison",
     ]
@@ -831,7 +840,11 @@ def run(ctx: Ctx):
                        "dask synchronous / dask threads, reversed and thinned value orders, a raising model or a rejected "
                        "value at any position, unknown keys), 4-8 fitness() calls (failing or rejected candidate in the "
                        "middle, candidates repeated in a row and at the end, 1-3 processors per candidate, list-valued "
-                       "variables), real calibrations on 1-3 islands; non-trivial = sets >= 1 parameter (graph) / makes "
+                       "variables), real calibrations on 1-3 islands; seeded stochastic pipelines (a model drawing from numpy's "
+                       "global generator without a seed of its own, shot noise) with a pipeline_seed: product / sequential / "
+                       "custom mode, loop / dask synchronous, the swept values in the given order, reversed, thinned, the same "
+                       "Observation object run twice, fitness sequences with repeated candidates and 1-3 processors, a real "
+                       "one-island calibration - every run against the standalone exposure under that seed; non-trivial = sets >= 1 parameter (graph) / makes "
                        ">= 2 runs (behaviour)")
     ctx.cov["traces_validated_against_impl"] = len(graphs) + len(behs)
     ctx.cov["disagreements_checked"] = len(mism)
@@ -911,7 +924,11 @@ META = dict(
         "history of calls whose runs may be rejected by a setter or raise in a model, aborted at the first failure (loop) "
         "or not (dask), followed by further calls - and the outcome of a run (result or failure) does not depend on that "
         "history; parameter values that are references to the caller's objects keep the frame because the sites "
-        "deep-copy the value (regenerated flag; statement false without the copy); a site that writes to the caller "
+        "deep-copy the value (regenerated flag; statement false without the copy); with the random generator as an explicit "
+        "input and output of every pipeline: because every run site brackets EVERY run with the pipeline seed (regenerated "
+        "table src_seeding), the outcomes of a call are the outcomes of the standalone exposures under that seed, for every "
+        "history, every order / subset of runs and every state of the ambient generator, which is restored - and the "
+        "statement is refuted for one bracket around the whole loop and for a dropped seed; a site that writes to the caller "
         "keeps the frame iff it restores in a finally clause (both directions proved on the model); with one aliasing "
         "field or an in-place site the frame statement is refuted on a concrete witness. "
         "That pyxel's real object graphs and CPython's deepcopy behave like the model is established by correspondence "
@@ -923,14 +940,16 @@ META = dict(
         "against an independently built standalone exposure."),
     level_note=(
         "Trusted: Coq kernel + vm_compute; translator/c06.py (field modes, copy-before-set shape, which processor is run, "
-        "writes to the caller's objects by taint analysis, value deep-copied before set, no other copy/pickle hook); "
+        "writes to the caller's objects by taint analysis, value deep-copied before set, where the seed bracket sits, no "
+        "other copy/pickle hook); "
         "the driver's canonical numbering and snapshots; Section hypotheses on runs (frame, address independence, "
-        "Processor.set stores payload or new objects); global state outside the store (RNG, caches) is C04/C20; "
+        "Processor.set stores payload or new objects; outcome = function of the copied graph and of the generator state the "
+        "run starts from); global state other than numpy's generator (caches) is C04/C20; "
         "result equality under parallel schedulers is C07 (here: isolation of the caller and of the runs under the "
         "threaded scheduler). Abstracted: the memo dropped by ModelGroup.__deepcopy__, values of immutable fields, "
         "numpy views (memory sharing is measured by the harness, not modelled). Calibration candidates are arbitrary "
         "binary64 values: their fitness is compared with the standalone oracle within 1e-9 relative (oracle side only)."),
-    technique="Coq proof over a heap/copy-policy model with failing runs + regenerated copy-site tables (mode, effect, "
-              "value copy) + in-Coq graph/snapshot correspondence",
+    technique="Coq proof over a heap/copy-policy model with failing runs and an explicit random-generator state + regenerated "
+              "copy-site / run-site tables (mode, effect, value copy, seeding) + in-Coq graph/snapshot correspondence",
     design_ref="DESIGN.md section 6, C06",
 )
